@@ -5,10 +5,13 @@
    placement incl. the rook hop, the en-passant victim and the promoted piece, side, the four rights, the
    marker (set on and only on a double step), both clocks (C02_apply_exact).  The checked operations accept
    exactly the moves `is_legal` accepts and leave the board(s) untouched when they refuse (C02_checked_gate).
-   Every parsed board satisfies the hypotheses (C02_parsed_boards_qualify); that make-move keeps them is the
-   open link shared with C04.  `is_legal` = rules legality is C01. *)
+   Every parsed board satisfies the hypotheses (C02_parsed_boards_qualify).
+   CLOSED in this round: every reachable board satisfies them, and `is_legal` is rules legality (C01), hence for EVERY
+   reachable board with clocks below the 16-bit limit and EVERY move: the checked operations accept the move iff it is
+   legal under the rules (C02_accept_exactly_legal), and the successor is exactly the rules' successor
+   (C02_successor_exact_reachable). *)
 From Coq Require Import NArith List Bool.
-From Chess Require Import base.Bits base.Types model.Board model.MoveGen model.Apply spec.Rules proofs.CoreFacts proofs.HashFacts proofs.ApplyFacts.
+From Chess Require Import base.Bits base.Types model.Board model.MoveGen model.Apply spec.Rules proofs.CoreFacts proofs.HashFacts proofs.ApplyFacts proofs.Reachable proofs.ReachableMore.
 Local Open Scope N_scope.
 
 Theorem C02_checked_gate : forall b m out,
@@ -33,3 +36,12 @@ Theorem C02_parsed_boards_qualify : forall b,
   /\ (validate_en_passant b = true -> (forall f, b_ep b = Some f -> f < 8) -> ep_ok b).
 Proof. intros b. exact (conj (validate_castle_rights_ok b) (validate_en_passant_ok b)). Qed.
 Print Assumptions C02_parsed_boards_qualify.
+
+Theorem C02_successor_exact_reachable : forall b m, Reachable b -> b_half b < 65535 -> b_full b < 65535 ->
+  is_legal b m = true -> abs (apply b m) = make (abs b) m.
+Proof. exact apply_exact_reachable. Qed.
+Print Assumptions C02_successor_exact_reachable.
+
+Theorem C02_accept_exactly_legal : forall b m, Reachable b -> is_legal b m = is_legal_move (abs b) m.
+Proof. exact is_legal_rules_reachable. Qed.
+Print Assumptions C02_accept_exactly_legal.
